@@ -72,6 +72,8 @@ class Interp(Run, StmtMixin, ExprMixin, CallMixin, BuiltinMixin, LoopMixin, Spec
     def get_attr(self, obj, name, n=None, frame=None):
         if obj.k == "py" and isinstance(obj.r, tuple) and obj.r and obj.r[0] == "event":
             ev = obj.r[1]
+            if name == "name":
+                return TV("str", z3.StringVal(ev.get("name", "?")))
             if name == "star":
                 v = ev.get("star")
                 return TV("val", v, "dict") if v is not None else tv_none()
